@@ -351,11 +351,11 @@ Inductive case :=
 | CaseSearch (ents : list (zone * Z * N)) (now : Z) (q : zone) (is_ds : bool) (rz : zone) (rsrv : N) (rcut : cut)
   (* processDelegation stopped by the depth budget right after its cache writes:
      rs (zone, cut, qname), pre-seeded entry for the referred zone, the referral, clock
-     skew of the delegation cache (emulated validation latency), bracket [t0,t1] of the real
-     clock readings, fatal lookup error flag; observed: outcome class, stored entry for the
+     skew of the delegation cache (emulated validation latency), its skew once the first nameserver
+     address lookup has run (a slow lookup: skew2 >= skew), bracket [t0,t1] of the real clock readings, fatal lookup error flag; observed: outcome class, stored entry for the
      zone, tree cut, rs cut after the call *)
 | CasePD (rsz : zone) (rscut : cut) (q : zone) (pre : option (Z * N))
-         (z : zone) (srv : N) (coh : bool) (ns : Z) (ds : option Z) (nprov : nat) (abort anchor : bool) (skew t0 t1 : Z)
+         (z : zone) (srv : N) (coh : bool) (ns : Z) (ds : option Z) (nprov : nat) (abort anchor : bool) (skew skew2 t0 t1 : Z)
          (outcome : N) (stored : option (Z * N)) (mcut : cut) (rcut : cut)
   (* two overlapping resolutions through the full pipeline: interleaved steps with their clock
      brackets; observed: stored delegations, both answer entries, servers asked per resolution *)
@@ -367,6 +367,15 @@ Inductive case :=
      parent withdrew: instant of the next query, whether it got the parent's NXDOMAIN, whether the old child was asked *)
 | CaseSec (ns ds t0 t1 t2 t3 : Z) (deleg : option Z) (entries : list (option (Z * Z * option Z)))
           (t4 : Z) (nx child_asked : bool)
+  (* full pipeline, nested delegation tld. -> a.tld. -> s.a.tld. whose referral carries a partly glue-less NS
+     set: per-level NS TTLs (s), number of provisional entries filed, bracket of an optional warm-up tree
+     (tld. and a.tld. cached beforehand), the main tree's bracket split at the nameserver address lookup
+     ([t0,h0] before it reached the child's server, [h1,t1] after), whether the lookup aborted the descent;
+     observed: stored delegation expiries (tld., a.tld., s.a.tld.), the answer's and the nameserver address's
+     entries; then after a.tld. withdrew s.a.tld.: instant of the next query, whether it got the parent's
+     NXDOMAIN, whether the former child was asked *)
+| CaseNest (ttl_tld ttl_a ttl_s : Z) (nprov : nat) (warm : option (Z * Z)) (t0 h0 h1 t1 : Z) (aborted : bool)
+           (delegs : list (option Z)) (ans nsaddr : option (Z * Z * option Z)) (t4 : Z) (nx child_asked : bool)
   (* full pipeline against the scripted world *)
 | CaseLab (zone_srv : list (zone * N)) (trees : list ltree).
 
@@ -375,8 +384,10 @@ Definition pd_state (rsz : zone) (rscut : cut) (q : zone) (pre : option (Z * N))
   let dc := match pre with Some (e, s) => dc_upd dc_empty z (Some (mk_deleg e s [])) | None => dc_empty end in
   mk_st dc (fun i => if (i =? 0)%N then Some (mk_rs rsz 1%N rscut 0%N q []) else None) (fun _ => meta_empty) [].
 
-Definition pd_ref (z : zone) (srv : N) (coh : bool) (ns : Z) (ds : option Z) (nprov : nat) (abort anchor : bool) (skew t : Z) : referral :=
-  mk_ref z srv coh ns ds true t false (t + skew) (repeat (t, t + skew) nprov) abort true anchor (t + skew).
+Definition pd_ref (z : zone) (srv : N) (coh : bool) (ns : Z) (ds : option Z) (nprov : nat) (abort anchor : bool) (skew skew2 t : Z) : referral :=
+  (* the first provisional entry is filed before the first address lookup, the others and the final store after it *)
+  let prov := match nprov with O => [] | S n => (t, t + skew) :: repeat (t, t + skew2) n end in
+  mk_ref z srv coh ns ds true t false (t + skew) prov abort true anchor (t + skew2).
 
 (* outcome: 0 rejected (errParentDetection), 1 cached branch (stopped by depth), 2 stored and stopped by depth,
    3 fatal lookup error *)
@@ -403,6 +414,35 @@ Definition cut_between (lo x hi : cut) : bool :=
   end.
 Definition rs_cut_of (st : state) : cut := match st_rs st 0%N with Some rs => rs_cut rs | None => None end.
 
+(* ---- nested delegation with a partly glue-less NS set: model side *)
+Definition nest_ztld : zone := [1%N].
+Definition nest_za : zone := [1%N; 2%N].
+Definition nest_zs : zone := [1%N; 2%N; 3%N].
+Definition nest_q : zone := [1%N; 2%N; 3%N; 4%N].
+Definition nest_qa : zone := [1%N; 2%N; 5%N].
+Definition nest_ref (z : zone) (srv : N) (ttl t : Z) : act :=
+  ARefer 0 (mk_ref z srv true ttl None true t false t [] false true true t).
+Definition nest_ans_ttl : Z := 3600000000000.
+
+(* every clock reading up to the address lookup at [ta], every one after it at [ts] *)
+Definition nest_run (hi : bool) (ttl_tld ttl_a ttl_s : Z) (nprov : nat) (warm : option (Z * Z)) (t0 h0 h1 t1 : Z) (aborted : bool) : state :=
+  let ta := if hi then h0 else t0 in
+  let ts := if hi then t1 else h1 in
+  let prov := match nprov with O => [] | S n => (ta, ta) :: repeat (ts, ts) n end in
+  let rs := ARefer 0 (mk_ref nest_zs 3 true ttl_s None true ta false ta prov aborted true true ts) in
+  let tail := if aborted then [rs] else [rs; AStore 0 1 nest_ans_ttl ts] in
+  match warm with
+  | Some (w0, w1) =>
+      let w := if hi then w1 else w0 in
+      let st := run code_fx [ASeed 0 0 nest_qa false w; nest_ref nest_ztld 1 ttl_tld w; nest_ref nest_za 2 ttl_a w;
+                             AStore 0 2 nest_ans_ttl w] st_init in
+      run code_fx (ASeed 0 0 nest_q false ta :: tail) (fresh_tree st)
+  | None =>
+      run code_fx (ASeed 0 0 nest_q false ta :: nest_ref nest_ztld 1 ttl_tld ta :: nest_ref nest_za 2 ttl_a ta :: tail) st_init
+  end.
+
+Definition ole (a : option Z) (b : Z) : bool := match a with Some x => x <=? b | None => true end.
+
 Definition check_case (c : case) : bool :=
   match c with
   | CaseAuth ops => auth_run dc_empty ops
@@ -422,10 +462,10 @@ Definition check_case (c : case) : bool :=
       let dc := fold_left (fun c e => let '(z, ex, s) := e in dc_upd c z (Some (mk_deleg ex s []))) ents dc_empty in
       let m := search_cache dc now q is_ds in
       zone_eqb (m_zone m) rz && (m_srv m =? rsrv)%N && cut_eqb (m_cut m) rcut
-  | CasePD rsz rscut q pre z srv coh ns ds nprov abort anchor skew t0 t1 outcome stored mcut rcut =>
+  | CasePD rsz rscut q pre z srv coh ns ds nprov abort anchor skew skew2 t0 t1 outcome stored mcut rcut =>
       let st := pd_state rsz rscut q pre z in
-      let lo := process_delegation code_fx st 0%N (pd_ref z srv coh ns ds nprov abort anchor skew t0) in
-      let hi := process_delegation code_fx st 0%N (pd_ref z srv coh ns ds nprov abort anchor skew t1) in
+      let lo := process_delegation code_fx st 0%N (pd_ref z srv coh ns ds nprov abort anchor skew skew2 t0) in
+      let hi := process_delegation code_fx st 0%N (pd_ref z srv coh ns ds nprov abort anchor skew skew2 t1) in
       (pd_outcome st z coh rsz q abort (t0 + skew) =? outcome)%N &&
       (pd_outcome st z coh rsz q abort (t1 + skew) =? outcome)%N &&
       pair_between (view_deleg lo z) stored (view_deleg hi z) &&
@@ -455,6 +495,30 @@ Definition check_case (c : case) : bool :=
       (* after the lease the model walks up to the root *)
       (if (match deleg_exp hi z with Some e => e <=? t4 | None => true end)
        then zone_eqb (m_zone (search_cache (st_dc hi) t4 q false)) [] && negb child_asked
+       else true)
+  | CaseNest ttl_tld ttl_a ttl_s nprov warm t0 h0 h1 t1 aborted delegs ans nsaddr t4 nx child_asked =>
+      let lo := nest_run false ttl_tld ttl_a ttl_s nprov warm t0 h0 h1 t1 aborted in
+      let hi := nest_run true ttl_tld ttl_a ttl_s nprov warm t0 h0 h1 t1 aborted in
+      (* the address sub-query is resolved through the provisional entry, whose lifetime (the tree's deadline,
+         at most one minute from the lookup) it folds into the tree: both admissions carry that cut *)
+      let ecut (st : state) (ta : Z) := option_map (fun c => Z.min c (ta + provisional_cap)) (cut_time (mt_cut (st_meta st 0%N))) in
+      let entry_ok (x : option (Z * Z * option Z)) :=
+        match x with
+        | Some (s, t, c) => between t0 s t1 && (t =? admit_ttl nest_ans_ttl) && obetween (ecut lo t0) c (ecut hi h0)
+        | None => false
+        end in
+      match delegs with
+      | [dt; da; dz] =>
+          obetween (deleg_exp lo nest_ztld) dt (deleg_exp hi nest_ztld) &&
+          obetween (deleg_exp lo nest_za) da (deleg_exp hi nest_za) &&
+          obetween (deleg_exp lo nest_zs) dz (deleg_exp hi nest_zs)
+      | _ => false
+      end &&
+      (if aborted then match ans with None => true | Some _ => false end
+       else entry_ok ans && entry_ok nsaddr) &&
+      (* once the model's entry for s.a.tld. has run out the walk starts strictly above it *)
+      (if ole (deleg_exp hi nest_zs) t4
+       then strict_above (m_zone (search_cache (st_dc hi) t4 nest_q false)) nest_zs && negb child_asked
        else true)
   | CaseLab _ trees => lab_check st_init st_init trees
   end.
@@ -517,7 +581,7 @@ Definition spec_case (c : case) : bool :=
                     end
         end in
       go cands
-  | CasePD rsz rscut q pre z srv coh ns ds nprov abort anchor skew t0 t1 outcome stored mcut rcut =>
+  | CasePD rsz rscut q pre z srv coh ns ds nprov abort anchor skew skew2 t0 t1 outcome stored mcut rcut =>
       (* the specification for one referral: nothing is written unless the referral progresses;
          a running lease is not replaced; what is written, noted or descended ends no later than
          the ancestor cut, than observed + min(NS TTL, DS TTL) and than observed + 12 h *)
@@ -580,5 +644,22 @@ Definition spec_case (c : case) : bool :=
       match deleg with Some e => e <=? bound | None => true end &&
       forallb (fun e => match e with Some x => entry_end x <=? bound | None => true end) entries &&
       (if bound <=? t4 then nx && negb child_asked else true)
+  | CaseNest ttl_tld ttl_a ttl_s nprov warm t0 h0 h1 t1 aborted delegs ans nsaddr t4 nx child_asked =>
+      (* the lease per level: observed (no later than the end of the bracket it was seen in) + min(NS TTL, 12 h),
+         limited by every shallower one; nothing stored for a zone, and nothing learned through s.a.tld.
+         (the answer, its nameserver's address), outlives it - provisional entries included; once it has run
+         out and the parent has withdrawn the zone, the parent's NXDOMAIN is served and the child is left alone *)
+      let capd ttl := Z.min (ttl * 1000000000) twelve_hours in
+      let obs_up := match warm with Some (_, w1) => w1 | None => h0 end in
+      let l_tld := obs_up + capd ttl_tld in
+      let l_a := Z.min l_tld (obs_up + capd ttl_a) in
+      let l_s := Z.min l_a (h0 + capd ttl_s) in
+      match delegs with
+      | [dt; da; dz] => ole dt l_tld && ole da l_a && ole dz l_s
+      | _ => false
+      end &&
+      match ans with Some x => entry_end x <=? l_s | None => true end &&
+      match nsaddr with Some x => entry_end x <=? l_s | None => true end &&
+      (if l_s <=? t4 then nx && negb child_asked else true)
   | CaseLab zone_srv trees => lab_spec [] zone_srv trees
   end.
